@@ -227,6 +227,11 @@ def inputs(rng, regime):
     else:
         x = rng.uniform(-40, 40, NX)
     x[:6] = [0.0, 20.0, -20.0, 19.999999, 20.000001, -25.0]
+    # neighbourhoods of round values at which guarded implementations typically switch branch (|x| = 15, 20, 30, 35): a switch
+    # must not cost monotonicity or the round trip, at any distance from 1 ulp to 1e-6
+    t = float(rng.choice([15.0, 20.0, 20.0, 30.0, 35.0])) * float(rng.choice([-1.0, 1.0]))
+    nb = [np.nextafter(t, np.inf), np.nextafter(t, -np.inf), t + 1e-12, t - 1e-12, t + 1e-9, t - 1e-9, t + 3e-8, t - 3e-8, t]
+    x[6:6 + len(nb)] = nb
     return x
 
 
